@@ -627,10 +627,75 @@ class Facts:
                     self._known_compares(v, pos, out, fn, bind, _d)
         elif isinstance(t, ast.Compare) and len(t.ops) == 1:
             out.append((t, pos, fn, bind))
+        elif isinstance(t, ast.Name) and fn is not None and _d < 3:
+            ds = self.flow.defs(fn.node).get(t.id)
+            if ds and len(ds) == 1 and ds[0][0] == 'value' and \
+                    t.id not in Q.params(fn.node):
+                self._known_compares(ds[0][1], pos, out, fn, bind, _d + 1)
         elif isinstance(t, ast.Call) and fn is not None and _d < 2:
             pb = self._predicate_body(t, fn, bind)
             if pb is not None:
                 self._known_compares(pb[0], pos, out, pb[1], pb[2], _d + 1)
+
+    def checker_guards(self, node, fn, bind=None):
+        """Conditions known to be false when `node` executes because an
+        earlier statement of an enclosing block called a repository
+        "checker" -- a function that raises under a single condition and
+        otherwise returns nothing: [(test, False, callee, callee bind)]."""
+        out = []
+        n = node
+        while n is not None and n is not fn.node:
+            p = getattr(n, '_parent', None)
+            for field in ('body', 'orelse', 'finalbody'):
+                blk = getattr(p, field, None)
+                if isinstance(blk, list) and any(n is x for x in blk):
+                    for st in blk[:[id(x) for x in blk].index(id(n))]:
+                        if isinstance(st, ast.Expr) and isinstance(
+                                st.value, ast.Call):
+                            callee = self.flow.resolve_call(st.value, fn)
+                            if callee is None:
+                                continue
+                            if any(r.value is not None
+                                   for r in Q.returns(callee.node)):
+                                continue
+                            b = self.flow._bind_args(st.value, callee, fn,
+                                                     bind, 0, set())
+                            for r in walk_no_nested(callee.node):
+                                if isinstance(r, ast.Raise):
+                                    gs = self.guards_pol(r, callee)
+                                    if len(gs) == 1:
+                                        out.append((gs[0][0], not gs[0][1],
+                                                    callee, b))
+            n = p
+        return out
+
+    def guard_leaves(self, node, fn, bind=None):
+        """(leaf test, truth, fn, bind) known when `node` executes: guards
+        (including those established by checker calls) with `not` stripped,
+        and/or split where sound, single-definition flag locals followed."""
+        out = []
+
+        def leaves(t, pos, f_, b_, d=0):
+            if isinstance(t, ast.UnaryOp) and isinstance(t.op, ast.Not):
+                leaves(t.operand, not pos, f_, b_, d)
+            elif isinstance(t, ast.BoolOp):
+                if isinstance(t.op, ast.And) == pos:
+                    for v in t.values:
+                        leaves(v, pos, f_, b_, d)
+            elif isinstance(t, ast.Name) and d < 3:
+                ds = self.flow.defs(f_.node).get(t.id)
+                if ds and len(ds) == 1 and ds[0][0] == 'value' and \
+                        t.id not in Q.params(f_.node):
+                    leaves(ds[0][1], pos, f_, b_, d + 1)
+                else:
+                    out.append((t, pos, f_, b_))
+            else:
+                out.append((t, pos, f_, b_))
+        for t, pos in self.guards_pol(node, fn):
+            leaves(t, pos, fn, bind)
+        for t, pos, f_, b_ in self.checker_guards(node, fn, bind):
+            leaves(t, pos, f_, b_)
+        return out
 
     def guard_truths(self, node, fn):
         """(leaf test expression, truth value) known when `node` executes:
@@ -655,9 +720,11 @@ class Facts:
         hold when `node` executes (operators of guards that were false are
         inverted: after `if x != A: continue`, `x == A` holds)."""
         out = []
-        for t, pos in self.guards_pol(node, fn):
+        todo = [(t, pos, fn, bind) for t, pos in self.guards_pol(node, fn)]
+        todo += self.checker_guards(node, fn, bind)
+        for t, pos, tf, tb in todo:
             cs = []
-            self._known_compares(t, pos, cs, fn, bind)
+            self._known_compares(t, pos, cs, tf, tb)
             for c, p, f_, b_ in cs:
                 op = type(c.ops[0]).__name__
                 if not p:
